@@ -36,6 +36,19 @@ instance : Scalar (Dual K) where
   eps := ⟨Scalar.eps, Scalar.ofNat 0⟩
   -- the value part of every operation is the base scalar's own operation on the value parts
   -- (so that `re (f x) = f (re x)` for every model function `f`, Properties/C12.lean)
+  sgal3EAB theta_sq :=
+    -- value parts from the base scalar's own rule; infinitesimal parts by the generic formulas
+    let theta : Dual K := ⟨Scalar.sqrt theta_sq.re, theta_sq.du / (Scalar.ofNat 2 * Scalar.sqrt theta_sq.re)⟩
+    let s : Dual K := ⟨Scalar.sin theta.re, Scalar.cos theta.re * theta.du⟩
+    let c : Dual K := ⟨Scalar.cos theta.re, -(Scalar.sin theta.re * theta.du)⟩
+    let dsub (a b : Dual K) : Dual K := ⟨a.re - b.re, a.du - b.du⟩
+    let dadd (a b : Dual K) : Dual K := ⟨a.re + b.re, a.du + b.du⟩
+    let dmul (a b : Dual K) : Dual K := ⟨a.re * b.re, a.re * b.du + a.du * b.re⟩
+    let ddiv (a b : Dual K) : Dual K := ⟨a.re / b.re, (a.du * b.re - a.re * b.du) / (b.re * b.re)⟩
+    let two : Dual K := ⟨Scalar.ofNat 2, Scalar.ofNat 0⟩
+    let A := ddiv (ddiv (dsub theta s) theta_sq) theta
+    let B := ddiv (dsub (dadd theta_sq (dmul two c)) two) (dmul (dmul two theta_sq) theta_sq)
+    (⟨(Scalar.sgal3EAB theta_sq.re).1, A.du⟩, ⟨(Scalar.sgal3EAB theta_sq.re).2, B.du⟩)
   cosUnq a := ⟨Scalar.cosUnq a.re, -(Scalar.sinUnq a.re * a.du)⟩
   sinUnq a := ⟨Scalar.sinUnq a.re, Scalar.cosUnq a.re * a.du⟩
   so3LogJCoeff theta2 theta :=
